@@ -117,6 +117,54 @@ def table_rules(facts, rep):
                 site = alls[0] if alls else asc[0]
                 it = norm(exg.operand(site[1]["args"][0], (site[0], None)))
                 good = any(x == ("arg", 1, "self") for x in walk(it))
+        if not good and len(fast) == 1 and len(slow) == 1 and not alls and not asc:
+            # the predicate written out as a loop (`for &b in bytes { if b >= 0x80 { return false } } true`, inlined here): decide it on
+            # paths -- the fast path is reached only after the iterator over `self` was exhausted with every element found < 0x80, the
+            # to_char path exactly when an element >= 0x80 was met; nothing else decides
+            from engine.paths import paths as _paths, PathExplosion
+            try:
+                ps_ = _paths(g, max_loop=2)
+            except PathExplosion:
+                ps_ = []
+            HI = re.compile(r"^(Ge|Lt|Gt|Le)\(ok\(Iterator::next\((.*)\)\), (127|128)\)$")
+            NX = re.compile(r"^discr\(Iterator::next\((.*)\)\)$")
+            good = bool(ps_)
+            nf = ns = 0
+            for p_ in ps_:
+                names = [e_[1] for e_ in p_["effects"]]
+                isf, iss = any(n_.endswith("from_utf8") for n_ in names), any(n_.endswith("Iterator::map") for n_ in names)
+                highs, exhausted, other, src = [], False, [], set()
+                for a_, v_ in p_["decisions"]:
+                    if a_ == "#iter":
+                        continue
+                    mh, mn = HI.match(a_), NX.match(a_)
+                    if mh:
+                        op_, c_ = mh.group(1), int(mh.group(3))
+                        src.add(mh.group(2))
+                        if (op_, c_) not in (("Ge", 128), ("Lt", 128), ("Gt", 127), ("Le", 127)) or v_ not in (0, 1):
+                            other.append(a_)
+                        else:
+                            highs.append((v_ == 1) if op_ in ("Ge", "Gt") else (v_ == 0))
+                    elif mn:
+                        src.add(mn.group(1))
+                        exhausted = (v_ == 0)
+                    else:
+                        other.append(a_)
+                if other or src - {"self"} or isf == iss:
+                    good = False
+                    break
+                if isf:
+                    nf += 1
+                    good = good and exhausted and not any(highs)
+                else:
+                    ns += 1
+                    good = good and bool(highs) and highs[-1] and not any(highs[:-1])
+            good = good and nf >= 2 and ns >= 2
+            if good:
+                m = norm(exg.operand(slow[0][1]["args"][1], (slow[0][0], None)))
+                by_path = {c.path: c for c in facts.fns if c.kind == "Closure"}
+                mc = by_path.get(m[2]) if m[0] == "agg" and m[1] == "closure" else None
+                good = (m[0] == "fn" and m[1].endswith("cp437::to_char")) or (mc is not None and any(callee_matches(t2, r"^cp437::to_char$") for _, t2 in mc.calls()))
         ok &= rep.check(good, rule, "fast-path:%s" % g.impl_self, where(g, g.span), "bytes taken as UTF-8 only when all are < 0x80; otherwise each byte through to_char",
                         "from_cp437 for %s takes its fast path under another condition than 'all bytes < 0x80' (valid multi-byte UTF-8 would bypass CP437)" % g.impl_self)
     rep.floor(rule, 5)
